@@ -205,3 +205,18 @@ add("C04",
     shards={"quick": 16, "thorough": 16},
     require_counts=["nonces_checked", "plaintext_windows_checked", "tamper_cases", "credential_histories", "held:swap/pack", "held:other-key/snapshot", "held:flip/pack/blob-mac", "held:flip/config/mac"],
     )
+
+add("C18",
+    engine="ENUM",
+    level="exploration",
+    technique="bounded exhaustive enumeration of configuration values (per-field boundaries, full products of interacting groups, init and 2-step change sequences) with a smoke run of every accepted configuration",
+    design_ref="DESIGN.md §4.5, §5 C18",
+    level_text="Every ConfigOptions field with boundary values (0, 1, interior, u32::MAX, u64::MAX; both ends of the zstd level range +-1; versions 0..3 and u32::MAX) and the full products of the interacting groups "
+               "(chunker x chunk size x min x max; pack size x grow factor x limit per blob type; version x compression; min% x max%) are applied to three initial configurations through apply_config on a real repository and through init. "
+               "apply/init must return (no panic); a refused change must leave the stored config bytes and the handle's config untouched; an accepted change may alter only the settings it names and never lowers the version. "
+               "Every distinct accepted configuration gets a smoke run in a child process (backup of files of length 0,1,63,64,65,5000,70000 and zeros, check --read-data, restore comparison through the API and the independent decoder, prune_plan) "
+               "under a watchdog; prune runs with every pair of ten limit values (0%..u64::MAX%, sizes 0/1/u64::MAX, unlimited) and must return Ok or Err.",
+    level_note="Panics are judged in the suite's build profile (overflow checks on). Values between the listed boundaries are not enumerated.",
+    shards={"quick": 16, "thorough": 16},
+    require_counts=["accepted", "refused", "smoke_runs", "prune_limit_ok", "init_cases"],
+    )
